@@ -1566,6 +1566,13 @@ public:
     if (op == OP_TRUNC && (get_bitwidth(src) > 1 && get_bitwidth(dst) == 1)) {
       // -- int to bool:
       // assume that zero is false and non-zero is true
+
+      // dst is redefined: forget what was recorded for its old value
+      m_bool_to_lincsts -= dst;
+      m_bool_to_refcsts -= dst;
+      m_bool_to_bools -= dst;
+      forget_implied_bool(dst);
+      
       interval_t i_src = m_product.second()[src];
       interval_t zero = interval_t(number_t(0));
       if (i_src == zero) {
